@@ -21,9 +21,11 @@ META = {
     "note": "Covered: over-admission (judged per R2 against the more permissive of un-ACKed and ACKed limits), admission after the limit "
             "dropped below the open count, stream ids, a NewStream caller still parked at an exact quiescent instant (synctest.Wait) "
             "although fewer streams than the ACKed limit are open, calls failing without deadline/close. 'Open' is the weaker reading "
-            "(a server END_STREAM closes the stream; the strict RFC half-closed reading is drift only). NOT covered: gated replay of "
-            "the model's interleavings (no hooks; TLC behaviours are projected on the externally controllable steps "
-            "new/close/cancel/announce and bursts without intermediate quiescence run on one P, internal steps run freely), "
+            "(a server END_STREAM closes the stream; the strict RFC half-closed reading is drift only). NOT covered: a full gated "
+            "replay of the model's interleavings: TLC behaviours are projected on the externally controllable steps "
+            "new/close/cancel/announce (bursts without intermediate quiescence run on one P, internal steps run freely); the only "
+            "gate is the hook point h2c.wait (callers that must wait are held between the critical section and their select), used "
+            "for the token-forwarding bursts and a seeded quarter of the other scenarios; "
             "limits above 8, failure of waiters by GOAWAY (C14), stream-id exhaustion.",
     "technique": "TLA+ spec + TLC exhaustive check; TLC state-graph edge cover projected on driver steps and run on a real transport in "
                  "synctest bubbles; free-running stress; TLC trace validation of the peer's frame log",
@@ -100,12 +102,13 @@ def scenarios(ctx, cfg, init, limit):
         seen.add(k)
         rows.append(p)
     total = len(rows)
+    def fwd(p):
+        return any(s.get("_fwd") and i > 0 and p[i - 1]["a"] == "close" and p[i - 1]["w"] == 0 for i, s in enumerate(p))
+    prio = [p for p in rows if fwd(p)]
     if limit is not None and len(rows) > limit:
         # always keep (a seeded sample of <= limit/4 of) the scenarios in which two closes happen in one burst and
         # leave two free slots for two waiters (token-forwarding path); then the longest ones (they contain the
         # shorter prefixes' steps); then a seeded sample of the rest
-        def fwd(p):
-            return any(s.get("_fwd") and i > 0 and p[i - 1]["a"] == "close" and p[i - 1]["w"] == 0 for i, s in enumerate(p))
         rows.sort(key=lambda p: json.dumps(p, sort_keys=True))
         prio = [p for p in rows if fwd(p)]
         ctx.rng.shuffle(prio)
@@ -118,12 +121,26 @@ def scenarios(ctx, cfg, init, limit):
         ctx.rng.shuffle(tail)
         rows = prio + head + tail[:limit - len(prio) - len(head)]
         ctx.log("scenarios %s: %d token-forwarding bursts kept" % (cfg, len(prio)))
+    prio_ids = set(id(p) for p in prio)
     out = []
     for p in rows:
+        isprio = id(p) in prio_ids
+        fpos = [i for i, s in enumerate(p) if s.get("_fwd") and i > 0 and p[i - 1]["a"] == "close" and p[i - 1]["w"] == 0]
         p = [{k: v for k, v in s.items() if not k.startswith("_")} for s in p]
-        for s in p:
+        for i, s in enumerate(p):
             if s["a"] == "close":
                 s["how"] = ctx.rng.choice(HOWS)
+        # gated variants (hook point h2c.wait: callers that must wait are held between the critical section that
+        # registered them and their select).  Token-forwarding bursts: hold from the start, release right after the
+        # second close, so that both wake-ups hit the one-slot channel before any waiter selects on it.  A seeded
+        # quarter of the other scenarios: hold from the start, release at a random later position.
+        if isprio and fpos:
+            j = fpos[0]
+            p[j]["w"] = 1  # both closes are processed by the client before the waiters are released
+            p = [{"a": "hold", "w": 0}] + p[:j + 1] + [{"a": "release", "w": 1}] + p[j + 1:]
+        elif len(p) >= 3 and ctx.rng.random() < 0.25:
+            j = ctx.rng.randrange(2, len(p) + 1)
+            p = [{"a": "hold", "w": 0}] + p[:j] + [{"a": "release", "w": 1}] + p[j:]
         out.append({"init": init, "drain": 1, "steps": p})
     ctx.log("scenarios %s: %d distinct projected behaviours, %d executed" % (cfg, total, len(out)))
     return out
